@@ -50,6 +50,7 @@ type FuncContract struct {
 	Ghosts        []string
 	Options       map[string]bool
 	FnCalls       map[string]*FuncContract // assumed contracts of function values called as <expr> (trusted boundary)
+	LitEnsures    map[int][]Clause         // `lit K ensures <cond>`: postconditions of the K-th escaping function literal (obligations at its returns)
 	Inline        bool                     // callers in the same package execute the body instead of using the contract
 	Panics        []Clause                 // the function panics (does not return) exactly when one of these holds
 }
@@ -349,6 +350,24 @@ func (cs *ContractSet) loadFile(path string) error {
 			cur.Pure = true
 		case "inline":
 			cur.Inline = true
+		case "lit":
+			// lit <K> ensures <clause>: postcondition of the K-th escaping function literal of this function
+			f := strings.SplitN(rest, " ", 3)
+			if len(f) < 3 || f[1] != "ensures" {
+				return fmt.Errorf("%s:%d: bad lit directive (lit <K> ensures <cond>)", path, l.no)
+			}
+			k, err := strconv.Atoi(f[0])
+			if err != nil {
+				return fmt.Errorf("%s:%d: bad literal ordinal", path, l.no)
+			}
+			cl, err := mk(strings.TrimSpace(f[2]), l.no)
+			if err != nil {
+				return err
+			}
+			if cur.LitEnsures == nil {
+				cur.LitEnsures = map[int][]Clause{}
+			}
+			cur.LitEnsures[k] = append(cur.LitEnsures[k], cl)
 		case "fncall":
 			// fncall <callee-expr> (requires|ensures|modifies) <clause>
 			f := strings.SplitN(rest, " ", 3)
